@@ -165,8 +165,12 @@ def bridges[S](
 
                 # Edge (v, w) is a bridge if low[w] > discovery[v]
                 if low[w] > discovery[v]:
-                    # Canonical ordering for consistent results
-                    edge = (v, w) if v < w else (w, v)  # type: ignore[operator]
+                    # Canonical ordering for consistent results; labels that cannot be ordered (None next to
+                    # ints, strings next to ints) keep the tree direction, parent first
+                    try:
+                        edge = (v, w) if v < w else (w, v)  # type: ignore[operator]
+                    except TypeError:
+                        edge = (v, w)
                     bridge_list.append(edge)
 
             elif w != parent[v]:
